@@ -1330,3 +1330,46 @@ def rf108(run):
                                'a reference to an import is rewritten to the definition bound at the first link and no later MIR_link can rebind it'
                                if kn == 'MIR_import_item' else 'the operand denotes a declaration instead of the definition'), line=ifs[0]['l'])
     return n
+
+
+# ---------------------------------------------------------------------------------------------
+# RF117: two declarations of one name are connected when the second one is added
+# ---------------------------------------------------------------------------------------------
+
+def rf117(run):
+    from lib import printexec as PE
+    rule = 'RF117'
+    run.rule(rule, 'add_item, executed abstractly for an export / forward item added while an export / forward of the same name is in the '
+                   'module table: afterwards either the new item is the old one (same kind), or one of the two refers to the other through '
+                   'ref_def (forward → export, or the export replacing the forward in the table).  A second declaration left without '
+                   'ref_def is a dead end for everything that works on a module before it is linked (mir2c prints no declaration of the '
+                   'function, the inliner does not find the callee)')
+    tu = run.tu('mir')
+    f = tu.func('add_item')
+    run.functions_analysed.add(('mir', f.name))
+    kinds = dict(tu.enum_by_member('MIR_export_item')[1])
+    n = 0
+    for tk in ('MIR_export_item', 'MIR_forward_item'):
+        for ik in ('MIR_export_item', 'MIR_forward_item'):
+            env = {'item': 2, 'item->item_type': kinds[ik], 'item->module': 9, 'item->ref_def': 0, 'tab_item->ref_def': 0, 'curr_module': 9}
+            acc = {'item_tab_find': lambda a, e, x: (e.__setitem__('tab_item->item_type', kinds[tk]) or 1),
+                   'MIR_item_name': lambda a, e, x: 'X', 'item_tab_remove': lambda a, e, x: 1,
+                   'item_tab_insert': lambda a, e, x: x.val(a[1], e)}
+            ex = PE.PrintExec(tu, {}, acc, {})
+            ex.retval = 'none'
+            try:
+                r = ex.run(f.body, env)
+            except F.AnalysisBroken as e_:
+                raise F.AnalysisBroken('add_item not executable for %s after %s: %s' % (ik, tk, e_))
+            ret = getattr(ex, 'retval', None)
+            same = env.get('item') == 1 or ret == 1
+            linked = env.get('tab_item->ref_def') == 2 or env.get('item->ref_def') == 1
+            ok = same or linked
+            n += 1
+            run.ob(rule, (tk, ik), ok, {'in the table': tk, 'added': ik, 'same item returned': bool(same), 'tab_item->ref_def': env.get('tab_item->ref_def'),
+                                        'item->ref_def': env.get('item->ref_def')})
+            if not ok:
+                run.violation(rule, f, '%s after %s' % (ik[4:-5], tk[4:-5]), 'a %s item added after a %s item of the same name is appended to the module '
+                              'with ref_def == NULL and the %s does not refer to it either: until MIR_link runs nothing leads from it to the '
+                              'definition (mir2c prints no declaration for a function used through it)' % (ik[4:-5], tk[4:-5], tk[4:-5]), line=f.line)
+    return n
